@@ -10,6 +10,8 @@ REPLAYS = os.path.join(VERIF, "replays")
 EVIDENCE = os.path.join(VERIF, "evidence")
 BIN = os.path.join(HARNESS, "target", "debug", "harness")
 NCPU = os.cpu_count() or 4
+NODIRECT = None     # set when the harness had to be built without anemo::verif::direct
+UNAVAILABLE = []    # scenarios that could not run for that reason
 
 
 class ToolError(Exception):
@@ -50,12 +52,27 @@ def build():
     lock = os.path.join(HARNESS, "Cargo.lock")
     if not os.path.exists(lock):
         shutil.copy("/repo/Cargo.lock", lock)
+    global BIN, NODIRECT
     t0 = time.time()
     rc, out = sh(["cargo", "build", "--offline"], cwd=HARNESS, timeout=1800,
                  env={"CARGO_NET_OFFLINE": "true"})
     if rc != 0:
-        log(out[-6000:])
-        raise ToolError("harness does not build against /repo's working tree")
+        # The direct-drive wrappers (anemo::verif::direct) name crate-private types and signatures; a
+        # refactor of those can stop the wrappers from compiling while the event hooks and gates still
+        # do. Build without them then: every scenario that does not need them runs as usual, the ones
+        # that do report themselves unavailable (a tool error of that check, not a verdict).
+        first = out
+        flags = ("--cfg bmwill_anemo_verif --cfg bmwill_anemo_verif_nodirect "
+                 "--check-cfg cfg(bmwill_anemo_verif) --check-cfg cfg(bmwill_anemo_verif_nodirect)")
+        rc, out = sh(["cargo", "build", "--offline", "--no-default-features", "--target-dir", "target-nodirect"],
+                     cwd=HARNESS, timeout=1800, env={"CARGO_NET_OFFLINE": "true", "RUSTFLAGS": flags})
+        if rc != 0:
+            log(first[-3000:])
+            log(out[-3000:])
+            raise ToolError("harness does not build against /repo's working tree (with or without the direct-drive wrappers)")
+        BIN = os.path.join(HARNESS, "target-nodirect", "debug", "harness")
+        NODIRECT = " ".join(l for l in first.splitlines() if l.startswith("error"))[:400]
+        log("[build] the direct-drive wrappers do not compile against this tree; built without them: " + NODIRECT)
     log(f"[build] ok in {time.time()-t0:.1f}s")
 
 
@@ -86,6 +103,13 @@ def harness(scenario, **kw):
             raise HarnessCrash(scenario, rc, out[-1500:])
         log(out[-4000:])
         raise ToolError(f"harness {scenario} produced no summary (rc={rc})")
+    if summ.get("unavailable"):
+        # part of the check cannot run on this tree; the rest goes on (a violation found elsewhere is
+        # still a violation), and the check ends as a tool error if nothing was found
+        UNAVAILABLE.append(f"{summ['unavailable']} ({NODIRECT})")
+        return {"unavailable": summ["unavailable"], "mismatches": [], "evaluations": 0, "rows": 0, "replayed": 0,
+                "handshakes": 0, "runs": [], "files": [], "trials": [], "trace": None, "random": 0,
+                "budget_sweep": {"evaluations": 0, "bad": []}}
     if summ.get("wedged"):
         # a simulated run whose thread never yielded again: the code under test spins (an await-free
         # loop); like a crash this is data about the code, not a tool failure
@@ -273,15 +297,20 @@ class Check:
         os.makedirs(EVIDENCE, exist_ok=True)
         with open(os.path.join(EVIDENCE, f"{self.pid}.json"), "w") as f:
             json.dump(ev, f, indent=1, default=str)
+        for u in UNAVAILABLE:
+            self.tool_errors.append("not run: " + u)
+        if real:
+            # a violation that was found stands, whatever else could not be run
+            for v in real:
+                print(f"VIOLATION property={self.pid} replay={v['replay']}")
+                log("  ", v["what"][:600])
+            for e in self.tool_errors:
+                log("TOOL-ERROR (other parts of the check):", e)
+            return 1
         if self.tool_errors:
             for e in self.tool_errors:
                 log("TOOL-ERROR:", e)
             return 2
-        if real:
-            for v in real:
-                print(f"VIOLATION property={self.pid} replay={v['replay']}")
-                log("  ", v["what"][:600])
-            return 1
         log(f"[{self.pid}] held: states={self.states} traces={self.traces} cases={self.evaluations} "
             f"in {time.time()-self.t0:.1f}s")
         return 0
